@@ -196,6 +196,8 @@ class Conc:
             nm: Any = self.name("v")
             if rp.get("cat") == "int":
                 nm = 7
+            if str(rp.get("cat", "")).startswith(("lit:", "hexc:")):
+                nm = rp["cat"].split(":", 1)[1]          # a concrete representative: the name itself
             return nm, []
         raise KeyError(self.kind)
 
